@@ -372,5 +372,8 @@ PROP = Prop(
     trusted_base=["Lean 4.33 kernel; axioms propext, Classical.choice, Quot.sound only",
                   "harness/props/c19.py; CPython big integers",
                   "FFT on floats, numpy, symbolic FFT: runtime, checked against the O(n^2) DFT with a tolerance only"],
+    level_text='Lean theorems (unbounded): integer_power = x^n in every monoid (negative n refused); extended Euclid satisfies Bezout and returns a gcd up to sign (sign rule proved), lcm consistent; find_factors factorises, FFT index splitting is a bijection; sparse polynomial +,-,*,**,divmod are homomorphic to evaluation, _sort_uniq preserves value and sorts, Horner evaluation equals the sum of terms. Tied to the code by correspondence on big integers and random sparse polynomials; FFT/ifft/sym_fft are compared with the O(n^2) DFT numerically (runtime part, partial).',
+    level_note='Trusted: Lean kernel; harness; CPython big integers. The FFT arithmetic (floating-point complex, numpy), polynomial division over fields and mixed bases are not modelled; matrices and mapper traversal of polynomials are checked by oracles on the real code only.',
+    technique='Lean 4 proofs about loop-faithful models (well-founded recursion, Mathlib Monoid/Int lemmas) + differential correspondence + numeric DFT oracle',
     design_ref="DESIGN.md §4 C19",
 )
